@@ -95,7 +95,7 @@ T = {
  "C25-r2m1": ("C25", "fragment memo stores the absolute depth of the first spread", "fragment spread twice, the first spread below a list field", ""),
  "C25-r2m2": ("C25", "depth reached inside an inline fragment is not folded into max_depth", "named fragment whose list fields sit inside an inline fragment, spread twice", ""),
  "C27-r2m1": ("C27", "list items pulled with ready_chunks(16), index derived from the chunk number", "async list stream pending between two items at a position that is not a multiple of 16, plus a field error at a later item (wrong errors[].path)", ""),
- "C27-r2m2": ("C27", "Normal mode: completing item i is joined with fetching item i+1", "list of objects, a resolver inside a non-last item pending once, an observable lazy item producer", ""),
+ "C27-r2m2": ("C27", "Normal mode: completing item i is joined with fetching item i+1", "list of objects, a resolver inside a non-last item pending once, an observable lazy item producer", "C27 compares the order of calls and list-item production with the synchronous run and explores over-bound requests by deviation bound"),
  "C28-r2m1": ("C28", "single value for a nested list type wrapped only once", "`[[Int]]` given `1`", ""),
  "C28-r2m2": ("C28", "unknown input-object key scan only runs if the object has more keys than the type has fields", "object with an undeclared key that omits at least as many declared fields", ""),
  "C22-r2m1": ("C22", "DiagnosticList::sort becomes sort_unstable_by_key", "more than 20 diagnostics with two different diagnostics at the same offset (e.g. a variable that is unused and of an undefined type)", ""),
@@ -110,6 +110,10 @@ T = {
  "C11-r2m2": ("C11", "get_line_column_range fast path computes the end column from the byte length", "a located text without line terminator that contains a multi-byte character, range end inspected", "C11 line/column ranges of every node (added before this seed was evaluated)"),
  "C18-r2m1": ("C18", "Schema::type_field returns __typename for scalar, enum and input object types too", "fragment with a scalar / enum / input type condition selecting __typename", ""),
  "C18-r2m2": ("C18", "validate_inline_fragment drops the fallback to the parent type for fragments without type condition", "`... { }` or `... @include(if: $c) { }` with an undefined variable or a missing sub-selection below it", ""),
+ "C04-r2m1": ("C04", "Parser::err_at_token pushes the error directly, bypassing the accept_errors check", "a recursion-limit error followed later by a type position whose next token is not a type", ""),
+ "C04-r2m2": ("C04", "field_set: a field set without outer braces no longer counts as a nesting level", "brace-less field set through parse_selection_set / parse_field_set with the recursion limit equal to depth - 1", ""),
+ "C33-r2m1": ("C33", "__typename recognised by response key instead of field name", "`kind: __typename` (aliased)", ""),
+ "C33-r2m2": ("C33", "nullability of a list field judged on its items", "non-null list of nullable items + a null ratio above 0", ""),
  "C33-m2": ("C33", "collect_fields: a fragment spread's fields replace nothing but are not merged into an already collected key", "same composite response key twice, the later occurrence from a named fragment with an extra sub-field", ""),
 }
 
